@@ -172,6 +172,13 @@ impl Block {
 const NO_FIRST: usize = 999;
 const STRUCT_N: [usize; 5] = [6, 12, 25, 50, 100];
 const LAYOUTS: [&str; 3] = ["cyclic", "separable", "noisy"];
+/// round 2, two classes only: n - m samples of class 0 and m = 1..3 of class 1 — the m samples with
+/// the largest projection t ("lopsided-extreme": separable) or the m samples at the median of t
+/// ("lopsided-interior": overlapping, the minority is misclassified at the optimum). With n >= 58
+/// the starting objective n ln 2 exceeds 40, so the Armijo test can accept an iterate at which a
+/// misclassified sample has |score| > 40.
+const LOPSIDED: [&str; 2] = ["lopsided-extreme", "lopsided-interior"];
+const LOPSIDED_N: [usize; 2] = [60, 100];
 
 pub fn plan(t: bool, seed: u64, jobs: &mut Vec<Job>) {
     let bl = blocks(t);
@@ -191,6 +198,18 @@ pub fn plan(t: bool, seed: u64, jobs: &mut Vec<Job>) {
         for p in 1..=6usize {
             for (li, l) in LAYOUTS.iter().enumerate() {
                 jobs.push(Job::new(format!("saturated-formula-n{}-p{}-k2-{}", n, p, l), json!({"kind": "structured", "n": n, "p": p, "k": 2, "layout": li, "seed": seed, "sat": true, "thorough": t})));
+            }
+        }
+    }
+    for &n in &LOPSIDED_N {
+        for p in 1..=6usize {
+            for (li, l) in LOPSIDED.iter().enumerate() {
+                for m in 1..=3usize {
+                    jobs.push(Job::new(
+                        format!("saturated-formula-n{}-p{}-k2-{}-m{}", n, p, l, m),
+                        json!({"kind": "structured", "n": n, "p": p, "k": 2, "layout": LAYOUTS.len() + li, "minority": m, "seed": seed, "sat": true, "thorough": t}),
+                    ));
+                }
             }
         }
     }
@@ -256,6 +275,22 @@ fn small_queries(p: usize) -> Vec<Vec<f64>> {
     } else {
         vec![vec![-1.0, 2.0], vec![0.5, 0.5], vec![2.0, -1.0]]
     }
+}
+
+/// The raw features of the structured family with the lopsided two-class labelling (see LOPSIDED).
+pub fn lopsided_data(n: usize, p: usize, layout: usize, m: usize) -> (Vec<Vec<f64>>, Vec<usize>) {
+    let (raw, _) = structured_data(n, p, 2, 0);
+    let t: Vec<i64> = raw.iter().map(|r| r.iter().enumerate().map(|(j, v)| (j as i64 + 1) * (if j % 2 == 0 { 1 } else { -1 }) * (*v as i64)).sum()).collect();
+    // stable order by (t, index)
+    let mut order: Vec<usize> = (0..n).collect();
+    order.sort_by_key(|&i| (t[i], i));
+    let chosen: Vec<usize> = match LOPSIDED[layout] {
+        "lopsided-extreme" => order[n - m..].to_vec(),
+        "lopsided-interior" => order[n / 2..n / 2 + m].to_vec(),
+        _ => unreachable!(),
+    };
+    let letters: Vec<usize> = (0..n).map(|i| if chosen.contains(&i) { 1 } else { 0 }).collect();
+    (raw, letters)
 }
 
 pub fn structured_data(n: usize, p: usize, k: usize, layout: usize) -> (Vec<Vec<f64>>, Vec<usize>) {
@@ -330,7 +365,7 @@ pub fn run(job: &Job) {
                 (MAPS[mc::choose(N_STRUCT_MAPS)], ALPHAS[mc::choose(ALPHAS.len())])
             };
             let ugly = mc::choose(2) == 1;
-            let (raw, letters) = structured_data(n, p, k, layout);
+            let (raw, letters) = if layout >= LAYOUTS.len() { lopsided_data(n, p, layout - LAYOUTS.len(), job.u("minority")) } else { structured_data(n, p, k, layout) };
             let queries_raw: Vec<Vec<f64>> = raw.iter().map(|r| r.iter().map(|v| -v - 0.5).collect()).collect();
             mc::count("structured_fit");
             fit_case(&Case { raw, letters, queries_raw, map, alpha, ugly, shift, family: if sat { "saturated-structured" } else { "structured" } });
@@ -702,6 +737,10 @@ pub fn fit_case(c: &Case) {
         }
         if d.mis_at_accepted > SATURATION {
             mc::count("saturated_misclassified_|score|>40_at_an_accepted_iterate(reference run)");
+        }
+        if d.mis_at_accepted > SATURATION && c.letters.len() < 58 {
+            // impossible while the Armijo test sees the true objective: f(iterate) <= n ln 2 < 40
+            mc::count("saturated_misclassified_|score|>40_at_an_accepted_iterate_with_n<58(reference run)");
         }
         if d.first_search_trials >= 3 {
             mc::count("saturated_first_line_search_backtracked_twice_or_more(reference run)");
